@@ -545,3 +545,6 @@ func ThreadID() int {
 	}
 	return S.cur.id
 }
+
+// Gosched replaces runtime.Gosched: a scheduling point.
+func Gosched() { Yield("gosched") }
